@@ -190,6 +190,27 @@ static void case_tree(vrng *r)
         std::vector<uint8_t> s2 = y.serialize();
         if (s2 != s) { snprintf(sig, sizeof sig, "c15:reserialize-differs:overload%d", which + 1); report(sig, "serialize(deserialize(bytes)) != bytes", e.p, e.n); break; }
     }
+    {
+        /* the object keeps being used: a field added through each put overload must show up in the next serialize() */
+        static const char *extra[3] = { "\xfe" "x1", "\xfe" "x2", "\xfe" "x3" };
+        uint8_t blob[5] = { 1, 0, 0xff, 0x80, 7 };
+        for (int ov = 0; ov < 3; ov++) {
+            vnode *k;
+            if (ov == 0) { k = vt_str(K_BYTES, blob, 5); x.put(std::string(extra[ov]), blob, 5); }
+            else if (ov == 1) { k = vt_int(-128 - ov); x.put(std::string(extra[ov]), BinsonValue((int64_t)k->i)); }
+            else { k = vt_new(K_OBJ); x.put(std::string(extra[ov]), Binson()); }
+            vt_setname(k, (const uint8_t *)extra[ov], 3);
+            vt_add(t, k);
+            vt_sortfields(t);
+            vbuf e2; memset(&e2, 0, sizeof e2);
+            vt_encode(t, &e2);
+            std::vector<uint8_t> s3 = x.serialize();
+            bool same = s3.size() == e2.n && memcmp(s3.data(), e2.p, e2.n) == 0;
+            vb_free(&e2);
+            if (!same) { char sig[80]; snprintf(sig, sizeof sig, "c15:serialize-after-put:overload%d", ov + 1); report(sig, "serialize() after a further put() does not give the canonical encoding of the updated object", s3.data(), s3.size()); break; }
+        }
+        vw_count("reserialize_after_put", 3);
+    }
     vw_count("trees", 1); vw_count("roundtrips", 3);
     vw_max("max_serialized_bytes", e.n);
     if (e.n > 1000) vw_count("above_first_try_buffer", 1);
